@@ -524,3 +524,32 @@ VARIANTS += [
      "new": "            try:\n                field: dataclasses.Field = fields[key]\n            except KeyError:\n                continue\n"
             "            if True:\n"},
 ]
+
+# ---------------------------------------------------------------------- round 6 (order / faults)
+VARIANTS += [
+    {"name": "R12 Xfer size future resolved on every packet 0", "file": XFER, "expect": "C20.R12",
+     "old": "            if not xfer.size_known.done():\n                xfer.size_known.set_result(xfer.expected_size)\n",
+     "new": "            xfer.size_known.set_result(xfer.expected_size)\n"},
+    {"name": "R12 guard tests another future than the one resolved", "file": TRANSFER, "expect": "C20.R12",
+     "old": "        if not transfer.size_known.done():\n            transfer.size_known.set_result(transfer.expected_size)",
+     "new": "        if not transfer.done():\n            transfer.size_known.set_result(transfer.expected_size)"},
+    {"name": "P R12 guarded resolution moved into a helper", "file": TRANSFER, "expect": "silent",
+     "old": "        if not transfer.size_known.done():\n            transfer.size_known.set_result(transfer.expected_size)\n",
+     "new": "        self._announce_size(transfer)\n"
+            "        self._check_status(transfer, transfer_block)\n\n"
+            "    @staticmethod\n    def _announce_size(transfer: Transfer):\n"
+            "        if transfer.size_known.done():\n            return\n"
+            "        transfer.size_known.set_result(transfer.expected_size)\n\n"
+            "    def _check_status(self, transfer: Transfer, transfer_block):\n"},
+    {"name": "R13 empty packets returned before the chunk store", "file": TRANSFER, "expect": "C20.R13",
+     "old": "        transfer.chunks[packet_id] = packet_data\n",
+     "new": "        if not packet_data:\n            return\n        transfer.chunks[packet_id] = packet_data\n"},
+    {"name": "R13 return between the store and the completion test", "file": XFER, "expect": "C20.R13",
+     "old": "        # We may be waiting on other packets so we can't end immediately.\n",
+     "new": "        if packet_id.PacketID < xfer.next_ackable - ACK_AHEAD_MAX:\n            return\n"
+            "        # We may be waiting on other packets so we can't end immediately.\n"},
+    {"name": "P R13 early return for a finished transfer or a held chunk", "file": TRANSFER, "expect": "silent",
+     "old": "        transfer.chunks[packet_id] = packet_data\n",
+     "new": "        if transfer.done():\n            return\n        if packet_id in transfer.chunks:\n            return\n"
+            "        transfer.chunks[packet_id] = packet_data\n"},
+]
